@@ -697,7 +697,18 @@ impl<D: Data<Elem = A>, A: Float + LinalgScalar + DivAssign + Sum> AffFuncBase<P
         let mut raw_dist = self.distance_raw(point);
         for (row, mut dist) in zip(self.mat.outer_iter(), raw_dist.outer_iter_mut()) {
             let norm: A = row.iter().map(|&x| x.powi(2)).sum::<A>().sqrt();
-            dist.map_inplace(|x| *x /= norm);
+            if norm == A::zero() {
+                // a zero row includes all points (bias >= 0) or none: the distance is infinite, never 0/0 = NaN
+                dist.map_inplace(|x| {
+                    *x = if *x >= A::zero() {
+                        A::infinity()
+                    } else {
+                        A::neg_infinity()
+                    }
+                });
+            } else {
+                dist.map_inplace(|x| *x /= norm);
+            }
         }
         raw_dist
     }
